@@ -144,12 +144,44 @@ def covers_program(it: ast.expr, prg: str) -> bool:
     return False
 
 
+def _comp_alpha(text: str) -> str:
+    """comprehension / generator variables renamed to positional names: `[x for x in xs]` and `[y for y in xs]` are the same"""
+    tree = ast.parse(text, mode="eval")
+    n = [0]
+
+    class R(ast.NodeTransformer):
+        def __init__(self) -> None:
+            self.env: list[dict[str, str]] = []
+
+        def _comp(self, node: ast.AST) -> ast.AST:
+            env: dict[str, str] = {}
+            for gen in node.generators:  # type: ignore[attr-defined]
+                for t in ast.walk(gen.target):
+                    if isinstance(t, ast.Name) and t.id not in env:
+                        env[t.id] = f"_c{n[0]}"
+                        n[0] += 1
+            self.env.append(env)
+            self.generic_visit(node)
+            self.env.pop()
+            return node
+
+        visit_ListComp = visit_SetComp = visit_DictComp = visit_GeneratorExp = _comp  # type: ignore[assignment]
+
+        def visit_Name(self, node: ast.Name) -> ast.AST:
+            for env in reversed(self.env):
+                if node.id in env:
+                    return ast.copy_location(ast.Name(env[node.id], node.ctx), node)
+            return node
+
+    return ast.unparse(R().visit(tree))
+
+
 def same(actual: str, expected: str) -> bool:
     """two expression texts are the same up to the condition normal form (operand order of ==, spacing)"""
     from ..nform import canon_expr
 
     try:
-        return canon_expr(actual) == canon_expr(expected)
+        return _comp_alpha(canon_expr(actual)) == _comp_alpha(canon_expr(expected))
     except SyntaxError:
         return actual.replace(" ", "") == expected.replace(" ", "")
 
@@ -187,11 +219,97 @@ def enum_members(enum: str) -> list[str]:
 def single_def(func: Func, name: str) -> Optional[ast.expr]:
     """the value of the only assignment to local `name` in func (None if not exactly one)"""
     vals = []
+    nodes = []
     for node in find_nodes(func.node, lambda n: isinstance(n, (ast.Assign, ast.AnnAssign))):
         target = node.target if isinstance(node, ast.AnnAssign) else (node.targets[0] if len(node.targets) == 1 else None)  # type: ignore[attr-defined]
         if isinstance(target, ast.Name) and target.id == name and node.value is not None:  # type: ignore[attr-defined]
             vals.append(node.value)  # type: ignore[attr-defined]
-    return vals[0] if len(vals) == 1 else None
+            nodes.append(node)
+    if len(vals) != 1:
+        return None
+    # an accumulator that is filled by the loop right behind it reads as the comprehension it spells out
+    from ..nform import fold_accumulator
+
+    block = block_of(func, nodes[0])
+    if block is not None:
+        idx = next(i for i, s in enumerate(block) if s is nodes[0])
+        if idx + 1 < len(block):
+            comp = fold_accumulator(name, vals[0], block[idx + 1])
+            if comp is not None:
+                return comp
+    return vals[0]
+
+
+def resolved(func: Func, expr: Optional[ast.expr]) -> Optional[ast.expr]:
+    """a plain name with exactly one definition stands for that definition (accumulator loops folded into comprehensions)"""
+    if isinstance(expr, ast.Name):
+        d = single_def(func, expr.id)
+        if d is not None:
+            return d
+    return expr
+
+
+def scan_parts(comp_text: str) -> Optional[dict[str, object]]:
+    """parts of a collection written as (folded into) a comprehension with one or two generators:
+    {'elt', 'gens': [{'target', 'iter', 'ifs': [..]}, ..]} as texts (None if it is not a comprehension)"""
+    try:
+        tree = ast.parse(comp_text, mode="eval").body
+    except SyntaxError:
+        return None
+    if not isinstance(tree, (ast.ListComp, ast.SetComp, ast.GeneratorExp)):
+        return None
+    return {"elt": unparse(tree.elt), "gens": [{"target": unparse(g.target), "iter": unparse(g.iter), "ifs": [unparse(i) for i in g.ifs]} for g in tree.generators]}
+
+
+def contributions(func: Func, name: str) -> list[tuple[ast.stmt, str]]:
+    """what is put into the list / set `name`, in source order, as expression texts: `name.extend(E)` / `name.update(E)`
+    give E, `name.append(E)` / `name.add(E)` give `[E]`, and a loop nest that only feeds `name` gives the comprehension
+    it spells out (so `name.extend([x for x in xs if c])` and the equivalent loop read the same)"""
+    from ..nform import fold_accumulator
+
+    out: list[tuple[ast.stmt, str]] = []
+
+    def walk(block: list[ast.stmt]) -> None:
+        for stmt in block:
+            if isinstance(stmt, (ast.FunctionDef, ast.AsyncFunctionDef, ast.ClassDef)):
+                continue
+            if isinstance(stmt, ast.For):
+                comp = fold_accumulator(name, ast.List(elts=[], ctx=ast.Load()), stmt) or fold_accumulator(name, ast.Call(func=ast.Name("set", ast.Load()), args=[], keywords=[]), stmt)
+                if comp is not None:
+                    if isinstance(comp, ast.SetComp):
+                        comp = ast.ListComp(elt=comp.elt, generators=comp.generators)
+                    out.append((stmt, unparse(comp)))
+                    continue
+            if isinstance(stmt, ast.Expr) and isinstance(stmt.value, ast.Call) and isinstance(stmt.value.func, ast.Attribute) and unparse(stmt.value.func.value) == name and len(stmt.value.args) == 1:
+                if stmt.value.func.attr in ("extend", "update"):
+                    out.append((stmt, unparse(stmt.value.args[0])))
+                elif stmt.value.func.attr in ("append", "add"):
+                    out.append((stmt, "[" + unparse(stmt.value.args[0]) + "]"))
+            for fld in ("body", "orelse", "finalbody"):
+                sub_ = getattr(stmt, fld, None)
+                if isinstance(sub_, list) and sub_ and isinstance(sub_[0], ast.stmt):
+                    walk(sub_)
+            for h in getattr(stmt, "handlers", []) or []:
+                walk(h.body)
+
+    walk(func.node.body)  # type: ignore[attr-defined]
+    return out
+
+
+_NEW_FUNCS: set[str] = set()
+_PRG = None
+
+
+def register_program(prg) -> None:  # type: ignore[no-untyped-def]
+    """called by the checker: lets the syntactic helpers of this module know which functions are new w.r.t. the reference"""
+    global _PRG  # pylint: disable=global-statement
+    _PRG = prg
+    _NEW_FUNCS.clear()
+    _NEW_FUNCS.update(prg.new_functions())
+
+
+def _resolve(func: Func, call: ast.Call):  # type: ignore[no-untyped-def]
+    return _PRG.resolve_callee(func, call.func) if _PRG is not None else None
 
 
 def inline_displays(func: Func, node: ast.expr, depth: int = 0) -> ast.expr:
@@ -205,6 +323,8 @@ def inline_displays(func: Func, node: ast.expr, depth: int = 0) -> ast.expr:
                 val = single_def(func, n.id)
                 if isinstance(val, (ast.List, ast.Tuple)) and val.elts:
                     return inline_displays(func, copy.deepcopy(val), depth + 1)
+                if isinstance(val, ast.Call) and _NEW_FUNCS and _resolve(func, val) in _NEW_FUNCS:
+                    return inline_displays(func, copy.deepcopy(val), depth + 1)  # a display moved into a new helper: expand() inlines the call
             return n
 
     return T().visit(copy.deepcopy(node))
